@@ -706,6 +706,25 @@ pub fn descriptor_models_ctx(u: &Universe, n_seg: usize, n_shwsh: usize, n_leg: 
         for k in [1usize, 2, 4] {
             out.push(D::Tr("KI".into(), vec![(0, T::MultiA(k, ks(1, 4)))]));
         }
+        // arities around the number-encoding and consensus boundaries (OP_16 / 17, 20 keys; P2SH 520 bytes)
+        for n in [7usize, 15, 16, 17, 20] {
+            for k in [1usize, 2, n - 1, n] {
+                out.push(D::Wsh(T::Multi(k, ks(1, n))));
+                out.push(D::Wsh(T::SortedMulti(k, ks(1, n))));
+                out.push(D::Sh(T::Multi(k, ks(1, n))));
+                out.push(D::ShWsh(T::Multi(k, ks(1, n))));
+                out.push(D::Tr("KI".into(), vec![(0, T::MultiA(k, ks(1, n)))]));
+                out.push(D::Tr("KI".into(), vec![(0, T::SortedMultiA(k, ks(1, n)))]));
+            }
+            // thresh over n keys
+            let mut subs = vec![pk(1)];
+            for i in 2..=n {
+                subs.push(spk(i));
+            }
+            for k in [1usize, 2, n - 1, n] {
+                out.push(D::Wsh(T::Thresh(k, subs.clone())));
+            }
+        }
     }
     // multi-leaf trees: ALL ordered pairs of B leaves <= n_tree2 nodes (2-leaf tree), and ALL
     // ordered triples of B leaves <= n_tree3 nodes in both 3-leaf shapes. Keys distinct across leaves.
